@@ -134,6 +134,18 @@ def cases(tier, seed):
             if len(N) >= 3:
                 s['sym_cores'] = [1]
             cs.append({'scen': 'tt_permute', 's': s})
+    # ---- histories: the same object transformed twice (permute/permute, permute/reshape, reshape/permute, reshape/reshape)
+    for N, R, first, then in [([2, 3], [1, 2, 1], ('permute', [1, 0]), ('permute', [1, 0])), ([2, 2, 3], [1, 2, 2, 1], ('permute', [2, 0, 1]), ('permute', [1, 2, 0])),
+                              ([2, 2, 3], [1, 2, 2, 1], ('permute', [1, 0, 2]), ('reshape', [4, 3])), ([2, 2, 3], [1, 2, 2, 1], ('reshape', [4, 3]), ('permute', [2, 1, 0])),
+                              ([4, 2], [1, 2, 1], ('reshape', [2, 2, 2]), ('reshape', [2, 4])), ([2, 3], [1, 2, 1], ('reshape', [6]), ('permute', [1, 0]))]:
+        for ek in ('sym', 'default'):
+            s = {'N': N, 'R': R, 'patterns': pats_for(N, R, rng, target=first[1] if first[0] == 'reshape' else None), 'then': list(then)}
+            if ek == 'default':
+                s['eps'] = 'default'
+            if first[0] == 'permute':
+                cs.append({'scen': 'tt_permute', 's': dict(s, dims=first[1])})
+            else:
+                cs.append({'scen': 'tt_reshape', 's': dict(s, target=first[1])})
     # ---- QTT
     for N, R in [([4], [1, 1]), ([4, 2], [1, 2, 1]), ([2, 4], [1, 2, 1]), ([4, 4], [1, 2, 1]), ([8], [1, 1]), ([2, 2], [1, 2, 1]), ([8, 2], [1, 2, 1])] + \
                 ([([4, 4, 2], [1, 2, 2, 1]), ([16], [1, 1]), ([8, 4], [1, 2, 1])] if th else []):
@@ -180,6 +192,8 @@ def sig(case, label):
     extra = ''
     if sc == 'tt_reshape' and 'M' not in s:
         extra = ':trailing1' if s['N'][-1] == 1 else ''
+    if s.get('then'):
+        extra += ':then_' + s['then'][0]
     return '%s:%s:%s%s:%s' % (sc, kind, s.get('eps', 'sym'), extra, label)
 
 
